@@ -10,7 +10,7 @@ import (
 )
 
 func init() {
-	Explanations["C16"] = "Decides structural necessary conditions of 'formation/renewal yields a confirmable contract or leaves no trace': (R1, host) after every successful Wallet.FundV2Transaction(&T) a deferred ReleaseInputs covering T is registered before any other exit; with the deferred calls made explicit before every return and flag values followed per path, every exit reachable after the funding passes ReleaseInputs for T or the success edge of the wallet broadcast (so a disarming flag of either polarity is set only after the broadcast succeeded, and the release does not depend on a variable that failure exits shadow); and no store that replaces or shrinks T / T.SiacoinInputs can reach an exit without a restoring append (otherwise the deferred release misses the host's inputs); (R2, renter) in every renter function that funds a transaction, every return that is not definitely a success return and is reachable from the funding success edge is preceded by ReleaseInputs of that transaction; (R3) AddV2Contract/RenewV2Contract are dominated by the success edge of AddV2PoolTransactions for the same transaction set, and the wallet broadcast follows the contractor call; (R4) wherever package rhp builds a TransactionSet value or hands (basis, transactions) to the pool or the wallet, basis and transactions come from the same origin — two fields of one request/response value, or two results of one call (re-slicing allowed) — so a set is never labelled with a basis its proofs were not produced for. Signature and funding checks of the renter are decided under C10.R1/R2, the host's signature checks under C08.R4. (R5) the guard table of C10.R1 restricted to RPCFormContract, RPCRenewContract and rpcRefreshContract: success only after the host's signatures verified over the locally built contract / renewal. NOT decided: that the set confirms once mined, behaviour when the final response is lost after the contract is recorded."
+	Explanations["C16"] = "Decides structural necessary conditions of 'formation/renewal yields a confirmable contract or leaves no trace': (R1, host) after every successful Wallet.FundV2Transaction(&T) a deferred ReleaseInputs covering T is registered before any other exit; with the deferred calls made explicit before every return and flag values followed per path, every exit reachable after the funding passes ReleaseInputs for T or the success edge of the wallet broadcast (so a disarming flag of either polarity is set only after the broadcast succeeded, and the release does not depend on a variable that failure exits shadow); and no store that replaces or shrinks T / T.SiacoinInputs can reach an exit without a restoring append (otherwise the deferred release misses the host's inputs); (R2, renter) in every renter function that funds a transaction, every return that is not definitely a success return and is reachable from the funding success edge is preceded by ReleaseInputs of that transaction; (R3) AddV2Contract/RenewV2Contract are dominated by the success edge of AddV2PoolTransactions for the same transaction set, and the wallet broadcast follows the contractor call; (R4) wherever package rhp builds a TransactionSet value or hands (basis, transactions) to the pool or the wallet, basis and transactions come from the same origin — two fields of one request/response value, or two results of one call (re-slicing allowed) — so a set is never labelled with a basis its proofs were not produced for. Signature and funding checks of the renter are decided under C10.R1/R2, the host's signature checks under C08.R4. (R5) the guard table of C10.R1 restricted to RPCFormContract, RPCRenewContract and rpcRefreshContract: success only after the host's signatures verified over the locally built contract / renewal. (R6) in wallet.ReleaseInputs no iteration over a transaction's SiacoinInputs reaches the loop head again without delete(locked, …); (R7) in the Server method that calls rhp4.ReadID the read is reached only after SetDeadline / SetReadDeadline with a time on the same stream. NOT decided: that the set confirms once mined, behaviour when the final response is lost after the contract is recorded."
 
 	register(&Rule{ID: "C16.R1", Prop: "C16", Floor: 9, Doc: "host: funded inputs are released on every failure exit (deferred release registered first, disarmed only after broadcast, transaction not shrunk)", Run: c16r1})
 	register(&Rule{ID: "C16.R2", Prop: "C16", Floor: 3, Doc: "renter: every non-success return after funding is preceded by ReleaseInputs", Run: c16r2})
@@ -25,7 +25,26 @@ func init() {
 
 // addrOfVar returns the variable x of an argument &x.
 func addrOfVar(f *ir.Func, e ast.Expr) types.Object {
-	if u, ok := ast.Unparen(e).(*ast.UnaryExpr); ok && u.Op == token.AND {
+	e = ast.Unparen(e)
+	// through a pointer conversion (`P(&v)` in a generic helper)
+	for {
+		call, ok := e.(*ast.CallExpr)
+		if !ok || len(call.Args) != 1 {
+			break
+		}
+		if tv, isT := f.Info().Types[call.Fun]; !isT || !tv.IsType() {
+			if _, isIdent := ast.Unparen(call.Fun).(*ast.Ident); !isIdent || f.Callee(call) != nil {
+				break
+			}
+			if _, isPtr := f.TypeOf(call).Underlying().(*types.Pointer); !isPtr {
+				if _, isTP := f.TypeOf(call).(*types.TypeParam); !isTP {
+					break
+				}
+			}
+		}
+		e = ast.Unparen(call.Args[0])
+	}
+	if u, ok := e.(*ast.UnaryExpr); ok && u.Op == token.AND {
 		return f.ObjOf(u.X)
 	}
 	return nil
@@ -557,7 +576,7 @@ func c16r6(c *Ctx) {
 	n := 0
 	unreserves := func(nd *cfgx.Node) bool {
 		for _, call := range f.NodeCalls(nd) {
-			if id, ok := call.Expr.Fun.(*ast.Ident); ok && id.Name == "delete" && len(call.Expr.Args) == 2 && f.FieldOf(call.Expr.Args[0]) == locked {
+			if id, ok := call.Expr.Fun.(*ast.Ident); ok && id.Name == "delete" && len(call.Expr.Args) == 2 && (f.FieldOf(call.Expr.Args[0]) == locked || lhsFieldA(f, call.Expr.Args[0]) == locked) {
 				return true
 			}
 		}
